@@ -235,6 +235,148 @@ pub fn gen_corpus(args: &[String]) -> i32 {
     }
 }
 
+/// Corpus for the instruction-count stage of C02: every construct of the grammar repeated until the
+/// input has (at most) 64, 128 and 256 characters, plus the longest bombs and large random trees.
+/// Lines: JSON case with kind = family name, extra = target length.
+pub fn gen_work_corpus(args: &[String]) -> i32 {
+    use crate::gen::*;
+    use crate::prng::Rng;
+    use crate::syntax::*;
+    let n_random: usize = args.first().and_then(|s| s.parse().ok()).unwrap_or(100);
+    let path = match args.get(1) {
+        Some(p) => p.clone(),
+        None => return 2,
+    };
+    let seed: u64 = args.get(2).and_then(|s| s.parse().ok()).unwrap_or(1);
+    let n_bombs: usize = args.get(3).and_then(|s| s.parse().ok()).unwrap_or(usize::MAX);
+    let mut rng = Rng::derive(seed, "work", n_random as u64);
+    let mut out = String::new();
+    let mut push = |ev: Ev, fam: &str, target: usize, expr: &str, ph: Val| {
+        let c = crate::core::Case::new(ev, fam, expr, ph).with_extra(&target.to_string());
+        out.push_str(&c.to_json().to_string());
+        out.push('\n');
+    };
+    // the largest m for which f(m) has at most `target` characters
+    let fit = |f: &dyn Fn(usize) -> String, target: usize| -> String {
+        let (mut lo, mut hi) = (1usize, 300usize);
+        while lo < hi {
+            let mid = (lo + hi + 1) / 2;
+            if f(mid).chars().count() <= target {
+                lo = mid;
+            } else {
+                hi = mid - 1;
+            }
+        }
+        f(lo)
+    };
+    for ev in crate::val::ALL_EV {
+        let ph = ph_pool(ev)[1 % ph_pool(ev).len()];
+        let mut fams: Vec<(String, Box<dyn Fn(usize) -> String>)> = vec![];
+        let mut ops: Vec<&'static str> = vec!["+", "-", "*", "/", "^"];
+        if has_fact_mod(ev) {
+            ops.push("%");
+        }
+        if has_bitops(ev) {
+            ops.extend(["|", "&", "<<", ">>"]);
+        }
+        for op in ops {
+            for leafs in ["1", "@", "(2)"] {
+                fams.push((format!("chain {} {}", op, leafs), Box::new(move |m| vec![leafs; m + 1].join(op))));
+            }
+            fams.push((format!("right-nested {}", op), Box::new(move |m| format!("{}1{}", format!("(1{}", op).repeat(m), ")".repeat(m)))));
+        }
+        for pre in ["-", "+", "-+"] {
+            fams.push((format!("prefix-run {}", pre), Box::new(move |m| format!("{}1", pre.repeat(m)))));
+        }
+        let mut posts: Vec<&'static str> = vec!["²", "¹", "⁰"];
+        if has_fact_mod(ev) {
+            posts.push("!");
+        }
+        if has_degrad(ev) {
+            posts.extend(["°", "rad"]);
+        }
+        for post in posts {
+            fams.push((format!("postfix-run {}", post), Box::new(move |m| format!("1{}", post.repeat(m)))));
+            fams.push((format!("postfix-each {}", post), Box::new(move |m| vec![format!("1{}", post); m].join("+"))));
+        }
+        fams.push(("superscript-digits".into(), Box::new(|m| format!("1{}", "¹".repeat(m)))));
+        fams.push(("nest ()".into(), Box::new(|m| format!("{}1{}", "(".repeat(m), ")".repeat(m)))));
+        fams.push(("open-only (".into(), Box::new(|m| format!("{}1", "(".repeat(m)))));
+        fams.push(("close-only )".into(), Box::new(|m| format!("1{}", ")".repeat(m)))));
+        if has_floorceil_brackets(ev) {
+            fams.push(("nest ⌊⌋".into(), Box::new(|m| format!("{}1{}", "⌊".repeat(m), "⌋".repeat(m)))));
+            fams.push(("nest ⌈⌉".into(), Box::new(|m| format!("{}1{}", "⌈".repeat(m), "⌉".repeat(m)))));
+        }
+        fams.push(("implicit (2)(2)".into(), Box::new(|m| "(2)".repeat(m))));
+        fams.push(("implicit 2(2(2".into(), Box::new(|m| format!("{}2{}", "2(".repeat(m), ")".repeat(m)))));
+        fams.push(("digits".into(), Box::new(|m| "7".repeat(m))));
+        fams.push(("zeros".into(), Box::new(|m| format!("{}1", "0".repeat(m)))));
+        fams.push(("fraction".into(), Box::new(|m| format!("0.{}", "3".repeat(m)))));
+        fams.push(("many literals".into(), Box::new(|m| vec!["1.5"; m].join("+"))));
+        fams.push(("white space".into(), Box::new(|m| format!("1{}+{}1", " ".repeat(m / 2), "\u{3000}".repeat(m / 2)))));
+        fams.push(("garbage".into(), Box::new(|m| "#".repeat(m))));
+        fams.push(("commas".into(), Box::new(|m| format!("max({}1)", ",".repeat(m)))));
+        fams.push(("placeholders".into(), Box::new(|m| vec!["@"; m].join("*"))));
+        if has_consts(ev) {
+            fams.push(("constants".into(), Box::new(|m| vec!["pi"; m].join("+"))));
+            fams.push(("constants π e".into(), Box::new(|m| vec!["π*e"; m].join("-"))));
+        }
+        if ev == Ev::Cpx {
+            fams.push(("imaginary literals".into(), Box::new(|m| vec!["2i"; m].join("*"))));
+            fams.push(("i run".into(), Box::new(|m| "i".repeat(m))));
+        }
+        for (sp, f) in spellings_for(ev) {
+            match f.arity() {
+                Arity::One => {
+                    fams.push((format!("nest {}()", sp), Box::new(move |m| format!("{}0.5{}", format!("{}(", sp).repeat(m), ")".repeat(m)))));
+                    fams.push((format!("sum of {}()", sp), Box::new(move |m| vec![format!("{}(2)", sp); m].join("+"))));
+                }
+                Arity::Two => {
+                    fams.push((format!("nest {}(x,.)", sp), Box::new(move |m| format!("{}2{}", format!("{}(2,", sp).repeat(m), ")".repeat(m)))));
+                    fams.push((format!("nest {}(.,x)", sp), Box::new(move |m| format!("{}2{}", format!("{}(", sp).repeat(m), ",2)".repeat(m)))));
+                    fams.push((format!("sum of {}(,)", sp), Box::new(move |m| vec![format!("{}(3,2)", sp); m].join("+"))));
+                }
+                Arity::Var => {
+                    fams.push((format!("args {}", sp), Box::new(move |m| format!("{}({})", sp, vec!["1"; m].join(",")))));
+                    fams.push((format!("args {} @", sp), Box::new(move |m| format!("{}({})", sp, vec!["@"; m].join(",")))));
+                    fams.push((format!("nest {}(x,.)", sp), Box::new(move |m| format!("{}2{}", format!("{}(1,", sp).repeat(m), ")".repeat(m)))));
+                    fams.push((format!("nest {}(.,x)", sp), Box::new(move |m| format!("{}2{}", format!("{}(", sp).repeat(m), ",1)".repeat(m)))));
+                    fams.push((format!("wide and deep {}", sp), Box::new(move |m| format!("{}2{}", format!("{}(1,2,3,", sp).repeat(m), ")".repeat(m)))));
+                }
+            }
+        }
+        for (name, f) in &fams {
+            for target in [64usize, 128, 256] {
+                push(ev, name, target, &fit(f.as_ref(), target), ph);
+            }
+        }
+        // magnitude bombs (loops whose trip count comes from a value) and the long nestings
+        let mut b: Vec<String> = bombs(ev);
+        rng.shuffle(&mut b);
+        for s in b.into_iter().take(n_bombs) {
+            push(ev, "bomb", 0, &s, *rng.pick(&ph_pool(ev)));
+        }
+    }
+    // large random trees and their mutations
+    let mut k = 0;
+    while k < n_random {
+        for ev in crate::val::ALL_EV {
+            let leaf = hostile_leaf(ev);
+            let mut cfg = GenCfg::full(ev, &leaf);
+            cfg.max_len = 256;
+            let d = 5 + rng.below(4);
+            let (_, s) = gen_expr(&cfg, &mut rng, d);
+            let s = if rng.chance(1, 4) { mutate(&s, &mut rng, ev) } else { s };
+            push(ev, "random", 0, &s, *rng.pick(&ph_pool(ev)));
+            k += 1;
+        }
+    }
+    match std::fs::write(&path, out) {
+        Ok(()) => 0,
+        Err(_) => 2,
+    }
+}
+
 fn esc_tsv(s: &str) -> String {
     let mut o = String::new();
     for c in s.chars() {
